@@ -604,4 +604,164 @@ example :
     let p := q.set 4 ⟨5/4, 3/4, 0⟩
     smooth g [] 1 (smooth g [] 1 p) = smooth g [] 1 p ∧ p ≠ q ∧ smooth g [] 1 p = q := by decide +kernel
 
+/-! ### tie to the source text: what the model transcribes literally -/
+
+/-- The statement skeletons of every method on the execution path of `SmootherBase.smooth`, regenerated from the
+    *current* source with `ast` on every run (`cbv/tables/c15.py`: one string per statement, `depth:text`, locals
+    renamed a0, a1, …), are the ones the model was transcribed from: the two nested loops of `smooth` with the
+    `continue` on fixed junctions, the neighbour positions read through `Junction.point` (a view of the shared
+    array: **in place**, Gauss–Seidel), the write to `self.grid.points[index]`, `backport` after the loops; the
+    inner junctions in index order; `fix_indexes` / `fix_points` adding to the set (`< TOL`); the guards and the order
+    of `get_common_side`, `add_neighbour` (cell and junction), `boundary`, `is_boundary`; the order of the binding
+    passes.  A change of any of these breaks this proof obligation. -/
+theorem T_C15_source_skeleton :
+    CBV.Gen.c15SrcSmooth =
+      ["def smooth(self, a0)",
+       "0:for _ in range(a0)",
+       "1:for a1 in self.inner",
+       "2:if a1.index in self.fixed",
+       "3:continue",
+       "2:a2 = [a3.point for a3 in a1.neighbours]",
+       "2:self.grid.points[a1.index] = np.average(a2, axis=0)",
+       "0:self.backport()"] ∧
+    CBV.Gen.c15SrcSmootherInit =
+      ["def __init__(self, a0)",
+       "0:self.grid = a0",
+       "0:self.inner = []",
+       "0:for a1 in self.grid.junctions",
+       "1:if not a1.is_boundary",
+       "2:self.inner.append(a1)",
+       "0:self.fixed = set()"] ∧
+    CBV.Gen.c15SrcFixIndexes =
+      ["def fix_indexes(self, a0)",
+       "0:self.fixed.update(set(a0))"] ∧
+    CBV.Gen.c15SrcFixPoints =
+      ["def fix_points(self, a0)",
+       "0:for a1 in a0",
+       "1:for a2 in self.grid.junctions",
+       "2:if f.norm(a1 - a2.point) < TOL",
+       "3:self.fixed.add(a2.index)"] ∧
+    CBV.Gen.c15SrcBackportMesh =
+      ["def backport(self)",
+       "0:for (a0, a1) in enumerate(self.grid.points)",
+       "1:self.mesh.vertices[a0].move_to(a1)"] ∧
+    CBV.Gen.c15SrcBackportSketch =
+      ["def backport(self)",
+       "0:a0 = self.grid.points",
+       "0:for (a1, a2) in enumerate(self.sketch.indexes)",
+       "1:a3 = np.take(a0, a2, axis=0)",
+       "1:self.sketch.faces[a1].update(a3)"] ∧
+    CBV.Gen.c15SrcJunctionPoint =
+      ["def point(self)",
+       "0:return self.points[self.index]"] ∧
+    CBV.Gen.c15SrcJunctionAddCell =
+      ["def add_cell(self, a0)",
+       "0:for a1 in a0.indexes",
+       "1:if a1 == self.index",
+       "2:self.cells.add(a0)",
+       "2:return"] ∧
+    CBV.Gen.c15SrcJunctionAddNeighbour =
+      ["def add_neighbour(self, a0)",
+       "0:if a0 == self",
+       "1:return False",
+       "0:a1 = {self.index, a0.index}",
+       "0:for a2 in self.cells",
+       "1:for a3 in a2.connections",
+       "2:if a3.indexes == a1",
+       "3:if a0 not in self.neighbours",
+       "4:self.neighbours.append(a0)",
+       "4:return True",
+       "0:return False"] ∧
+    CBV.Gen.c15SrcJunctionIsBoundary =
+      ["def is_boundary(self)",
+       "0:for a0 in self.cells",
+       "1:if self.index in a0.boundary",
+       "2:return True",
+       "0:return False"] ∧
+    CBV.Gen.c15SrcCellInit =
+      ["def __init__(self, a0, a1)",
+       "0:self.grid_points = a0",
+       "0:self.indexes = a1",
+       "0:self.neighbours = {a2: None for a2 in self.side_names}",
+       "0:self.connections = [CellConnection(set(a3), {a1[a3[0]], a1[a3[1]]}) for a3 in self.edge_pairs]",
+       "0:self._quality = None"] ∧
+    CBV.Gen.c15SrcCellCommonIndexes =
+      ["def get_common_indexes(self, a0)",
+       "0:a1 = set(self.indexes)",
+       "0:a2 = set(a0.indexes)",
+       "0:return a1.intersection(a2)"] ∧
+    CBV.Gen.c15SrcCellCorner =
+      ["def get_corner(self, a0)",
+       "0:return self.indexes.index(a0)"] ∧
+    CBV.Gen.c15SrcCellCommonSide =
+      ["def get_common_side(self, a0)",
+       "0:a1 = self.get_common_indexes(a0)",
+       "0:if len(a1) != len(self.side_indexes[0])",
+       "1:raise NoCommonSidesError",
+       "0:a2 = {self.get_corner(a3) for a3 in a1}",
+       "0:for (a3, a4) in enumerate(self.side_indexes)",
+       "1:if set(a4) == a2",
+       "2:return self.side_names[a3]",
+       "0:raise NoCommonSidesError"] ∧
+    CBV.Gen.c15SrcCellAddNeighbour =
+      ["def add_neighbour(self, a0)",
+       "0:if a0 == self",
+       "1:return False",
+       "0:try",
+       "1:a1 = self.get_common_side(a0)",
+       "1:self.neighbours[a1] = a0",
+       "1:return True",
+       "0:except NoCommonSidesError",
+       "1:return False"] ∧
+    CBV.Gen.c15SrcCellBoundary =
+      ["def boundary(self)",
+       "0:a0 = set()",
+       "0:for (a1, a2) in enumerate(self.side_names)",
+       "1:a3 = self.side_indexes[a1]",
+       "1:if self.neighbours[a2] is None",
+       "2:a0.update({self.indexes[a4] for a4 in a3})",
+       "0:return a0"] ∧
+    CBV.Gen.c15SrcGridInit =
+      ["def __init__(self, a0, a1)",
+       "0:self.points = a0",
+       "0:self.junctions = [Junction(self.points, a2) for a2 in range(len(self.points))]",
+       "0:self.cells = [self.cell_class(self.points, a3) for a3 in a1]",
+       "0:self._bind_cell_neighbours()",
+       "0:self._bind_junction_cells()",
+       "0:self._bind_junction_neighbours()"] ∧
+    CBV.Gen.c15SrcBindCells =
+      ["def _bind_cell_neighbours(self)",
+       "0:for a0 in self.cells",
+       "1:for a1 in self.cells",
+       "2:a0.add_neighbour(a1)"] ∧
+    CBV.Gen.c15SrcBindJunctionCells =
+      ["def _bind_junction_cells(self)",
+       "0:for a0 in self.cells",
+       "1:for a1 in self.junctions",
+       "2:a1.add_cell(a0)"] ∧
+    CBV.Gen.c15SrcBindJunctions =
+      ["def _bind_junction_neighbours(self)",
+       "0:for a0 in self.junctions",
+       "1:for a1 in self.junctions",
+       "2:a0.add_neighbour(a1)"] := by
+  decide
+
+/-- The literal index tables in the class bodies (`side_indexes`, `edge_pairs`, `side_names`; `HexCell.edge_pairs` is
+    the name `constants.EDGE_PAIRS`) are the tables the model works with, one neighbour slot per side name;
+    `CellConnection` has the two fields the model's `connected` uses; `constants.TOL` is the float nearest to
+    `1 / c15TolDen`, whose square is the model's exact matching radius `tol2`. -/
+theorem T_C15_source_tables :
+    CBV.Gen.c15QuadSideIdxLit = quadKind.sideIdx ∧ CBV.Gen.c15QuadEdgePairsLit = quadKind.edgePairs ∧
+    CBV.Gen.c15HexSideIdxLit = hexKind.sideIdx ∧ CBV.Gen.c15HexEdgePairsIsConst = true ∧
+    CBV.Gen.c15HexEdgePairsConst = hexKind.edgePairs ∧
+    CBV.Gen.c15QuadSideNamesLit = CBV.Gen.quadSideNames ∧ CBV.Gen.c15HexSideNamesLit = CBV.Gen.hexSideNames ∧
+    quadKind.sideIdx.length = CBV.Gen.quadSideNames.length ∧ hexKind.sideIdx.length = CBV.Gen.hexSideNames.length ∧
+    CBV.Gen.c15SrcConnectionFields.map (·.1) = ["corners", "indexes"] ∧
+    CBV.Gen.c15TolIsInvDen = true ∧
+    tol2 * (CBV.Gen.c15TolDen : Rat) * (CBV.Gen.c15TolDen : Rat) = 1 ∧ 0 < CBV.Gen.c15TolDen := by
+  refine ⟨by decide, by decide, by decide, by decide, by decide, by decide, by decide, by decide, by decide,
+    by decide, by decide, ?_, by decide⟩
+  unfold tol2 CBV.Gen.c15TolDen
+  norm_num
+
 end CBV.C15
